@@ -181,7 +181,14 @@ fn sub_threshold<C: Suite>(
     // (b) honest coordinator refuses fewer than t shares
     for (mode, mname) in modes() {
         match frost_core::aggregate_custom(&pkg, &shares, &grp.pkp, mode) {
-            Err(e) => ctx.count(&format!("aggregate_refused/{mname}/{}", err_name(&e))),
+            Err(e) => {
+                ctx.count(&format!("aggregate_refused/{mname}/{}", err_name(&e)));
+                // a refusal on the share count comes before any verification: a signature-verification error here means
+                // the coordinator went on to aggregate fewer than threshold-many shares
+                if matches!(e, frost_core::Error::InvalidSignature | frost_core::Error::InvalidSignatureShare { .. }) {
+                    ctx.viol("coordinator-threshold-check-bypassed", mname, d("aggregate of <t shares under the honest public key package failed only at signature verification"));
+                }
+            }
             Ok(_) => ctx.viol("coordinator-accepts-sub-threshold", mname, d("aggregate returned Ok for <t shares with honest public key package")),
         }
     }
@@ -249,7 +256,12 @@ fn sub_threshold<C: Suite>(
             for (vname, pkp) in [("honest", &grp.pkp), ("lowered", &variants[0].1), ("none", &variants[1].1)] {
                 for (mode, mname) in modes() {
                     match frost_rerandomized::aggregate_custom(&pkg, &rshares, pkp, mode, &params) {
-                        Err(e) => ctx.count(&format!("rerand_aggregate_err/{mname}/{}", err_name(&e))),
+                        Err(e) => {
+                            ctx.count(&format!("rerand_aggregate_err/{mname}/{}", err_name(&e)));
+                            if vname == "honest" && matches!(e, frost_core::Error::InvalidSignature | frost_core::Error::InvalidSignatureShare { .. }) {
+                                ctx.viol("coordinator-threshold-check-bypassed", &format!("rerandomized-{mname}"), d("randomized aggregate of <t shares under the honest public key package failed only at signature verification"));
+                            }
+                        }
                         Ok(_) => ctx.viol("sub-threshold-signature", &format!("rerandomized-{vname}-{mname}"), d("randomized aggregate released a signature for <t holders")),
                     }
                 }
